@@ -43,3 +43,20 @@ func RaceRelease(p *byte) { runtime.RaceRelease(unsafe.Pointer(p)) }
 
 //go:norace
 func RaceReleaseMerge(p *byte) { runtime.RaceReleaseMerge(unsafe.Pointer(p)) }
+
+// RaceReadRange / RaceWriteRange annotate an access of the code under test to
+// its own memory (socket buffers) performed on its behalf by a shim.
+//
+//go:norace
+func RaceReadRange(b []byte) {
+	if len(b) > 0 {
+		runtime.RaceReadRange(unsafe.Pointer(&b[0]), len(b))
+	}
+}
+
+//go:norace
+func RaceWriteRange(b []byte) {
+	if len(b) > 0 {
+		runtime.RaceWriteRange(unsafe.Pointer(&b[0]), len(b))
+	}
+}
